@@ -19,6 +19,7 @@ Modes:
 from __future__ import annotations
 
 import builtins
+import codecs
 import errno
 import io
 import json
@@ -175,8 +176,17 @@ class HookedBuffered(_Outer, io.BufferedWriter):
 
 
 class HookedText(_Outer, io.TextIOWrapper):
+    _enc = None
+    _wr_newline = None
+
     def write(self, s):
-        self._bcall(len(s.encode(self.encoding, self.errors or 'strict')))
+        # the bytes this text becomes under the file's own encoding and error handling (an incremental
+        # encoder: a BOM counts once); text the encoding cannot express raises here exactly as it would
+        # in the real write
+        if self._enc is None:
+            self._enc = codecs.getincrementalencoder(self.encoding)(self.errors or 'strict')
+        data = s.replace('\n', os.linesep) if self._wr_newline is None else s
+        self._bcall(len(self._enc.encode(data)))
         return super().write(s)
 
     def __exit__(self, exc_type, exc, tb):
@@ -222,6 +232,7 @@ def hooked_open(file, mode='r', buffering=-1, encoding=None, errors=None, newlin
         return out
     buf = io.BufferedWriter(raw, buffering)
     out = HookedText(buf, encoding, errors, newline)
+    out._wr_newline = newline
     out.mode = mode
     raw._outer = out
     return out
@@ -868,6 +879,8 @@ def scenario(name: str, seed: int, base: str):
         old, load = bsp_prepare(base, variant)
         new = reference_output(load, base) if not variant else old + b'<the save never completes>'
         return init, 'bsp', bsp_body(load), old, new
+    if name.startswith('awe'):
+        return encoding_scenario(name, init, w, rnd)
     text = name.startswith('awt')
     steps = []
     for _ in range(rnd.randrange(2, 8)):
@@ -888,10 +901,44 @@ def scenario(name: str, seed: int, base: str):
     return init, 'aw-text' if text else 'aw-bytes', aw_body(steps, text, unit=1), old, new
 
 
+# text-mode writers with an explicit encoding: (encoding, pieces of text written one after the other)
+ENCODING_CASES = [
+    ('ascii', ['plain header\n', 'caf\u00e9 is not ascii\n', 'tail\n']),
+    ('ascii', ['all of this\n', 'is seven bit\r\n', 'text\r']),
+    ('latin-1', ['na\u00efve r\u00e9sum\u00e9\n', 'snowman \u2603 is not latin-1\n']),
+    ('latin-1', ['\u00fcber \u00e5ngstr\u00f6m\r\n', '\u00a3 \u00bd\n']),
+    ('cp1252', ['price \u20ac5 \u2013 ok\n', '\u201cquoted\u201d\r\n']),
+    ('cp1252', ['fine so far\n', 'but \u0100 is not in cp1252\n']),
+    ('utf8', ['\u00e9\u4e2d\U0001f600\n', 'lone surrogate \ud800 cannot be encoded\n']),
+    ('utf8', ['\u00e9\u4e2d\U0001f600\n', 'line\r\nline\rline\n', '\ufeff is just a character here']),
+    ('utf-16', ['bom first \u2603\n', 'second piece \U0001f600\r\n', 'third\r']),
+    ('utf-8-sig', ['signature then text \u00e9\n', 'more\r\n']),
+    ('utf-16-le', ['no bom \u2603\n', 'lone \udc00 surrogate\n']),
+]
+
+
+def encoding_scenario(name: str, init: dict, w: str, rnd: random.Random):
+    """What must be in the destination is decided here, independently of the io stack: the text written,
+    encoded with the writer's encoding (newlines as the platform writes them); if the encoding cannot
+    express the text the write must fail and the previous contents must stay."""
+    enc, pieces = ENCODING_CASES[int(name.partition('-')[2]) % len(ENCODING_CASES)]
+    old = ('previous text \u00e9\n' * rnd.randrange(1, 50)).encode('utf8')
+    try:
+        new = ''.join(pieces).replace('\n', os.linesep).encode(enc)
+    except UnicodeEncodeError:
+        new = old + b'<cannot be encoded: must never be committed>'
+
+    def body(run: Run, ww: str) -> None:
+        with AtomicWriter(run.dest[ww], is_bytes=False, encoding=enc) as f:
+            for piece in pieces:
+                f.write(piece)
+    return init, 'aw-text', body, old, new
+
+
 def scenario_names(tier: str) -> list:
     n = 2 if tier == 'quick' else 8
     return (['bsp', 'bsp-noversion', 'bsp-badlump'] + [f'awb-{k}' for k in range(n)]
-            + [f'awt-{k}' for k in range(n)])
+            + [f'awt-{k}' for k in range(n)] + [f'awe-{k}' for k in range(len(ENCODING_CASES))])
 
 
 def run_scenario(base: str, name: str, seed: int, inject, t: int, point=None) -> dict:
